@@ -15,6 +15,8 @@ From Verif.Eco.Alpine Require Entry.
 From Verif.Eco.Pypi Require Entry.
 From Verif.Eco.Maven Require Entry.
 From Verif.Eco.Golang Require Entry.
+From Verif.Eco.Conan Require Entry.
+From Verif.Eco.Npm Require Entry.
 
 Definition ecosystems : list eco := [
   Cran.Entry.entry;
@@ -30,5 +32,7 @@ Definition ecosystems : list eco := [
   Alpine.Entry.entry;
   Pypi.Entry.entry;
   Maven.Entry.entry;
-  Golang.Entry.entry
+  Golang.Entry.entry;
+  Conan.Entry.entry;
+  Npm.Entry.entry
 ].
